@@ -140,13 +140,19 @@ fn aead_case(ctx: &Ctx, c: CipherAlg, ring: bool, obj: &mut Box<dyn Cipher>, key
             return;
         },
     }
-    // decryption inverts it
-    let mut back = vec![0u8; pt.len()];
-    match catch_unwind(AssertUnwindSafe(|| obj.decrypt(n, ad, &want, &mut back))) {
-        Ok(Ok(l)) if l == pt.len() && back == pt => {},
-        other => {
-            ctx.violation("decrypt does not invert encrypt", format!("{who} nonce {n:#x} ad {} pt {}: {:?}", ad.len(), pt.len(), other.map(|r| r.map_err(|e| format!("{e:?}")))), case.clone());
-        },
+    // decryption inverts it - whatever the size of the output buffer (exact, a few spare bytes, room for
+    // the tag, larger): backends branch on out.len() vs ciphertext.len()
+    let spares: &[usize] = if pt.len() <= 256 { &[0, 1, 8, 15, 16, 17, 40] } else { &[0, 16] };
+    for spare in spares {
+        let mut back = vec![0u8; pt.len() + spare];
+        ctx.add(&ctx.evaluations, 1);
+        match catch_unwind(AssertUnwindSafe(|| obj.decrypt(n, ad, &want, &mut back))) {
+            Ok(Ok(l)) if l == pt.len() && back[..l] == *pt => {},
+            other => {
+                ctx.violation("decrypt does not invert encrypt", format!("{who} nonce {n:#x} ad {} pt {} out buffer {}: {:?}", ad.len(), pt.len(), pt.len() + spare, other.map(|r| r.map_err(|e| format!("{e:?}")))), case.clone());
+                break;
+            },
+        }
     }
     ctx.add(&ctx.nontrivial, 1);
     if !flips {
